@@ -994,6 +994,7 @@ class PortTransport(_RegHackMixin, _FullTransport, _PortTransportAbstractor):
         """Close the transport (cancel any outstanding tasks)."""
 
         super()._close(exc)
+        self._remove_reader()  # else every later byte raises in _read_ready()
 
         if self._init_task:
             self._init_task.cancel()
